@@ -23,6 +23,7 @@ func GenConcCfg(rng *rand.Rand, prop string) Cfg {
 	c.CompMinSeg = []uint32{1, 513, 600}[rng.Intn(3)]
 	c.CompFrag = []float32{0.01, 0.05, 0.2, 0.5}[rng.Intn(4)]
 	c.FSYields = rng.Intn(2) == 0
+	c.UnlockYields = rng.Intn(3) == 0
 	c.Sticky = []int{0, 0, 3, 10}[rng.Intn(4)]
 	c.SchedSeed = rng.Int63()
 	c.ShortReads = rng.Intn(2) == 0
